@@ -298,14 +298,26 @@ def mult():
 
 
 def check_ops(ctx, value):
-    history, nm = value
-    case = {"kind": "ops", "ops": history, "name": nm}
+    history, nm = value[0], value[1]
+    early = value[2] if len(value) > 2 else False
+    case = {"kind": "ops", "ops": history, "name": nm, "early": early}
+
+    def observer(step, vars_):
+        # print (and round-trip) every variable as soon as it exists or changes, so that later
+        # operations work on operands that have already been printed
+        i = step.new if step.new is not None else step.changed
+        if i is not None:
+            roundtrip(ctx, vars_[i].f, dict(case, var=i, at_step=step.index), "public", "arithmetic-early")
     try:
-        vars_, flags, skipped = ops.interpret(history, mag=(Fraction(1, 10 ** 20), Fraction(10 ** 20)))
+        vars_, flags, skipped = ops.interpret(history, observer=observer if early else None,
+                                              mag=(Fraction(1, 10 ** 20), Fraction(10 ** 20)))
+    except Violation:
+        raise
     except Exception:  # noqa
         ctx.inconclusive += 1
         ctx.count("inconclusive:source-rejected")
         return
+    ctx.count("ops:printed-early" if early else "ops:printed-at-end")
     for i, v in enumerate(vars_):
         c = dict(case, var=i)
         roundtrip(ctx, v.f, c, "public", "arithmetic", nm=nm if i == len(vars_) - 1 else None)
@@ -403,7 +415,7 @@ def task_tree(ctx, n, depth):
 
 def task_ops(ctx, n, steps=12):
     E = env()
-    strat = st.tuples(ops.history(E["pool"], max_steps=steps, mult=mult()), nm_strategy())
+    strat = st.tuples(ops.history(E["pool"], max_steps=steps, mult=mult()), nm_strategy(), st.booleans())
     ctx.search("ops", strat, check_ops, n)
 
 
@@ -451,7 +463,7 @@ def replay(ctx, case):
     if k == "tree":
         check_tree(ctx, (case["tree"], case.get("table", "public"), case.get("name")))
     elif k == "ops":
-        check_ops(ctx, (case["ops"], case.get("name")))
+        check_ops(ctx, (case["ops"], case.get("name"), case.get("early", False)))
     elif k == "mixture":
         check_mixture(ctx, (case["mixture"], case.get("name")))
     elif k == "empty":
